@@ -9,6 +9,7 @@ import (
 	"path/filepath"
 	"time"
 
+	"verif.local/sim/checks"
 	"verif.local/sim/engine"
 	"verif.local/sim/simbuild"
 	"verif.local/sim/world"
@@ -30,6 +31,23 @@ func main() {
 		fmt.Println(string(b))
 	case "trace":
 		cmdTrace(os.Args[2:])
+	case "check":
+		fs := flag.NewFlagSet("check", flag.ExitOnError)
+		tier := fs.String("tier", "quick", "quick|thorough")
+		replay := fs.String("replay", "", "replay file")
+		if len(os.Args) < 3 {
+			fmt.Fprintln(os.Stderr, "usage: verifsim check <id> [--tier t] [--replay f]")
+			os.Exit(2)
+		}
+		fs.Parse(os.Args[3:])
+		seed := int64(1)
+		if v := os.Getenv("VERIF_SEED"); v != "" {
+			fmt.Sscan(v, &seed)
+		}
+		if t := os.Getenv("VERIF_TIER"); t != "" && *tier == "" {
+			*tier = t
+		}
+		os.Exit(checks.Main(os.Args[2], *tier, seed, *replay))
 	default:
 		fmt.Fprintln(os.Stderr, "unknown command")
 		os.Exit(2)
@@ -78,7 +96,7 @@ func cmdTrace(args []string) {
 	fmt.Printf("stats %+v\n", s.Stats)
 	if *verbose {
 		for _, st := range s.Steps {
-			fmt.Printf("%4d %-50s %2d %-12s %s %s\n", st.N, st.Proc, st.Seq, st.Op, st.Site, st.Path)
+			fmt.Printf("%4d %6dms %-50s %2d %-12s %s %s\n", st.N, s.StepAt[st.N].Milliseconds(), st.Proc, st.Seq, st.Op, st.Site, filepath.Base(st.Path))
 		}
 	}
 	fmt.Println("stderr:", c.Stderr.String())
